@@ -1066,11 +1066,11 @@ Section Validation.
   Variable p : str.
   Hypothesis Hp : cfg_validation_pattern cfg = Some p.
 
-  (* a submission that fails the validation test is refused as explain_validation says -- in accept_any mode,
-     in accept_nonempty mode and in normal mode (where the author's expect passes the test) *)
+  (* a submission that fails the validation test re.fullmatch(p, cleaned) is refused as explain_validation says -- in
+     accept_any mode, in accept_nonempty mode and in normal mode (where the author's expect passes the test) *)
   Theorem validation_refusal : forall a e s,
-    rm (test_pattern p) (clean_input T cfg s) = false ->
-    (accept_any_mode cfg = true \/ rm (test_pattern p) (clean_input T cfg e) = true) ->
+    rf p (clean_input T cfg s) = false ->
+    (accept_any_mode cfg = true \/ rf p (clean_input T cfg e) = true) ->
     check_response T rm rf cfg a e s = refusal cfg (cfg_explain_validation cfg) (cfg_invalid_msg cfg).
   Proof.
     intros a e s Hs Hm. unfold check_response. cbv zeta. rewrite Hp, Hs. cbn [negb].
@@ -1081,8 +1081,8 @@ Section Validation.
 
   (* a submission that passes the test is graded exactly as if there were no pattern *)
   Theorem validation_pass : forall a e s,
-    rm (test_pattern p) (clean_input T cfg s) = true ->
-    (accept_any_mode cfg = true \/ rm (test_pattern p) (clean_input T cfg e) = true) ->
+    rf p (clean_input T cfg s) = true ->
+    (accept_any_mode cfg = true \/ rf p (clean_input T cfg e) = true) ->
     check_response T rm rf cfg a e s = check_response T rm rf (without_pattern cfg) a e s.
   Proof.
     intros a e s Hs Hm.
@@ -1097,11 +1097,16 @@ Section Validation.
 
   (* normal mode: an expected answer that can never pass the test is an author error *)
   Theorem validation_expect_config_error : forall a e s,
-    accept_any_mode cfg = false -> rm (test_pattern p) (clean_input T cfg e) = false ->
+    accept_any_mode cfg = false -> rf p (clean_input T cfg e) = false ->
     check_response T rm rf cfg a e s = RaiseConfig.
   Proof.
     intros a e s Ha He. unfold check_response. cbv zeta. rewrite Hp, Ha, He. reflexivity.
   Qed.
+
+  (* the re.match oracle plays no part any more *)
+  Theorem rematch_irrelevant : forall rm' a e s,
+    check_response T rm rf cfg a e s = check_response T rm' rf cfg a e s.
+  Proof. reflexivity. Qed.
 End Validation.
 
 (* the call path: grader(None, s) *)
